@@ -75,6 +75,15 @@ def scenario(ctx, script_key, stop_api, with_next, max_preempt, later=False):
         lat = ScriptJob.from_string(LATER_JOB) if later and later != 'same' else None
         assert job.program is not None
         marks = {}
+        real_execute = job.execute
+
+        def timed_execute(*a, **kw):
+            marks.setdefault('main_started_at', s.now)
+            try:
+                return real_execute(*a, **kw)
+            finally:
+                marks['main_done_at'] = s.now
+        job.execute = timed_execute
         stamps = []
         orig_ev = net.ev
 
@@ -225,6 +234,12 @@ def scenario(ctx, script_key, stop_api, with_next, max_preempt, later=False):
                 problems.append('the job is still running %d scheduler steps after the stop request returned (%s)' % (s.steps, hung or 'step bound'))
             elif 'returned' not in marks:
                 problems.append('the stop call itself never returns (%s)' % (hung,))
+        if stop_api in ('stop_job', 'stop_current', 'stop_background', 'stop_all', 'stop_all_bg', 'web_stop_script', 'web_stop_script_bg') \
+                and later != 'same' and 'main_done_at' in marks and marks.get('main_started_at', 1e9) <= marks.get('t_stop', -1):
+            # promptly: the clock's wait is bounded by one second (lib/clock.py), a request in progress takes 0.05 s here
+            overrun = marks['main_done_at'] - marks['t_stop']
+            if overrun > 1.0 + 2 * TICK + 0.2:
+                problems.append('the stopped script went on for %.2f s after the stop request had returned (a wait is bounded by 1 s, a tick is %.2f s)' % (overrun, TICK))
         if len(main_cmds_after) > 1:
             problems.append('%d further commands of the stopped script reached the lights after the stop returned' % len(main_cmds_after))
         c_cmds = [e for e in net.trace if e[0] == 'power' and e[1] == 'C']
